@@ -921,20 +921,17 @@ def _ambient():
     import os
     import random as _random
     import sys as _sys
-    import warnings
+    # (warning filters and logger levels are deliberately not part of it: a library may configure them lazily without
+    # any effect on results)
     return {
         'np.geterr': repr(sorted(np.geterr().items())),
         'np.printoptions': repr(sorted((k, repr(v)) for k, v in np.get_printoptions().items())),
         'recursionlimit': _sys.getrecursionlimit(),
-        'logging': repr((__import__('logging').root.manager.disable,
-                         sorted((n_, l_.level) for n_, l_ in __import__('logging').root.manager.loggerDict.items()
-                                if n_.startswith('kneeliverse') and hasattr(l_, 'level')))),
         'cwd': os.getcwd(),
         'files(cwd)': repr(sorted((n, os.path.getsize(os.path.join('.', n)) if os.path.isfile(n) else -1) for n in os.listdir('.')))
         if os.environ.get('KNEESIM_RUNDIR') else '',
         'files(tmp)': repr(sorted(os.listdir(os.environ['TMPDIR']))) if os.environ.get('KNEESIM_RUNDIR') and os.environ.get('TMPDIR') else '',
         'environ': hash(tuple(sorted(os.environ.items()))),
-        'warnings.filters': len(warnings.filters),
         'random.state': hash(_random.getstate()),
         'np.random.state': hash(np.random.get_state()[1].tobytes()) ^ int(np.random.get_state()[2]),
     }
